@@ -149,13 +149,26 @@ Definition summ_ok (s : summ) (f : flat) (nwarn : nat) : bool :=
 
 Definition first_type (rs : list rec) : N := match filter_eoe rs with r :: _ => r_type r | [] => 0%N end.
 
+(* the property's own clause on the file summary: when the event's normalisation is about a file and the event has PATH
+   records, the summary mirrors the PATH record that normalisation selects (its path index; PARENT / UNKNOWN records skipped) *)
+Definition file_selected_ok (ty : N) (e : mev) (f : flat) (ws : list str) : bool :=
+  if existsb (contains (L "failed to set file object")) ws then true
+  else match select_norm ty e with
+       | Some n => let what := L (n_what n) in
+                   if (isS what "file" || isS what "filesystem") && has_file f
+                   then match m_paths e with [] => true | ps => mirrors (selected ps (n_path_index n)) f end
+                   else true
+       | None => true
+       end.
+
 Definition judge_c09n (c : ecase) : N :=
   match judge_c09 c with
   | 0%N =>
       match c with
       | ECase rs false (Some f) ws _ _ _ =>
           match model_event rs with
-          | Some e => if summ_ok (apply_norm (first_type rs) e) f (List.length ws) then 0%N else 1%N
+          | Some e => if negb (file_selected_ok (first_type rs) e f ws) then 2%N
+                      else if summ_ok (apply_norm (first_type rs) e) f (List.length ws) then 0%N else 1%N
           | None => 0%N
           end
       | _ => 0%N
